@@ -15,9 +15,7 @@ import (
 // swrWindowTests: comparisons `x < swr` in fn where swr derives from the stale-while-revalidate accessor.
 func (c *Ctx) swrWindowTests(fn *ssa.Function) []*ssa.BinOp {
 	var out []*ssa.BinOp
-	isSWR := func(v ssa.Value) bool {
-		return c.An.dependsOnCall(v, func(cc *ssa.Call) bool { return c.An.isAccessorCall(cc, "rs", "stale-while-revalidate") })
-	}
+	isSWR := c.isSWRValue
 	instrsOf(fn, func(in ssa.Instruction) {
 		bo, ok := in.(*ssa.BinOp)
 		if !ok {
@@ -48,9 +46,7 @@ func ruleSWRWindowAge(c *Ctx, rule string) {
 	for fn := range c.A.ReachFg {
 		for _, bo := range c.swrWindowTests(fn) {
 			n++
-			isSWR := func(v ssa.Value) bool {
-				return c.An.dependsOnCall(v, func(cc *ssa.Call) bool { return c.An.isAccessorCall(cc, "rs", "stale-while-revalidate") })
-			}
+			isSWR := c.isSWRValue
 			other := bo.X
 			if isSWR(bo.X) {
 				other = bo.Y
@@ -131,26 +127,10 @@ func ruleSWRBranchSpawns(c *Ctx, rule string) {
 	n := 0
 	bad := ""
 	for fn := range c.A.ReachFg {
-		tests := c.swrWindowTests(fn)
-		if len(tests) == 0 {
-			continue
-		}
 		inWindow := func(b *ssa.BasicBlock) bool {
 			for _, dc := range dominatingConds(b) {
-				for _, lf := range condLeaves(dc.cond, dc.onTrue) {
-					for _, t := range tests {
-						if lf.v == ssa.Value(t) {
-							// the window is open on the edge where `staleFor < swr` holds
-							open := (t.Op == token.LSS || t.Op == token.LEQ) == lf.val
-							isSWRLeft := c.An.dependsOnCall(t.X, func(cc *ssa.Call) bool { return c.An.isAccessorCall(cc, "rs", "stale-while-revalidate") })
-							if isSWRLeft {
-								open = !open
-							}
-							if open {
-								return true
-							}
-						}
-					}
+				if c.windowOpen(dc) {
+					return true
 				}
 			}
 			return false
@@ -385,7 +365,7 @@ func ruleNoReleaseBeforeWriteBack(c *Ctx, rule string) {
 		}
 	})
 	for _, bg := range bgs {
-		for _, f := range append([]*ssa.Function{bg}, nestedClosures(bg)...) {
+		for _, f := range c.reachableFrom(bg) {
 			var sends, handlers []ssa.Instruction
 			instrsOf(f, func(in ssa.Instruction) {
 				if _, ok := in.(*ssa.Send); ok {
@@ -393,6 +373,22 @@ func ruleNoReleaseBeforeWriteBack(c *Ctx, rule string) {
 				}
 				if c.An.CallsRole(in, "validationHandler") || c.An.CallsRole(in, "storeResp") {
 					handlers = append(handlers, in)
+				} else if ci, ok := in.(ssa.CallInstruction); ok {
+					// a call of a local function that gets to the handler stands for it here
+					for _, cal := range c.P.RepoCallees(ci) {
+						for _, g := range c.reachableFrom(cal) {
+							hit := false
+							instrsOf(g, func(i2 ssa.Instruction) {
+								if c.An.CallsRole(i2, "validationHandler") {
+									hit = true
+								}
+							})
+							if hit {
+								handlers = append(handlers, in)
+								break
+							}
+						}
+					}
 				}
 			})
 			if len(handlers) == 0 {
@@ -430,31 +426,33 @@ func ruleMetaLineSeparator(c *Ctx, rule string) {
 	desc := "the metadata line is split on the writer's separator constant, not on white space in general"
 	seps := map[string]bool{}
 	fields := ""
-	instrsOf(ep, func(in ssa.Instruction) {
-		cc := callOf(in)
-		if cc == nil {
-			return
-		}
-		for _, pk := range []string{"bytes", "strings"} {
-			for _, fn := range []string{"Split", "SplitN", "Cut", "SplitSeq"} {
-				if callIsPkgFunc(cc, pk, fn) && len(cc.Args) >= 2 {
-					if k, ok := constStr(cc.Args[1]); ok {
-						seps[k] = true
-					}
-					// []byte("\t")
-					c.P.TraceBack(cc.Args[1], TraceOpts{ThroughOps: true}, func(v ssa.Value, _ []int) bool {
-						if k, ok := constStr(v); ok {
+	for _, epf := range c.reachableFrom(ep) {
+		instrsOf(epf, func(in ssa.Instruction) {
+			cc := callOf(in)
+			if cc == nil {
+				return
+			}
+			for _, pk := range []string{"bytes", "strings"} {
+				for _, fn := range []string{"Split", "SplitN", "Cut", "SplitSeq"} {
+					if callIsPkgFunc(cc, pk, fn) && len(cc.Args) >= 2 {
+						if k, ok := constStr(cc.Args[1]); ok {
 							seps[k] = true
 						}
-						return true
-					})
+						// []byte("\t")
+						c.P.TraceBack(cc.Args[1], TraceOpts{ThroughOps: true}, func(v ssa.Value, _ []int) bool {
+							if k, ok := constStr(v); ok {
+								seps[k] = true
+							}
+							return true
+						})
+					}
+				}
+				if callIsPkgFunc(cc, pk, "Fields") || callIsPkgFunc(cc, pk, "FieldsFunc") || callIsPkgFunc(cc, pk, "FieldsSeq") {
+					fields = c.P.InstrPos(in)
 				}
 			}
-			if callIsPkgFunc(cc, pk, "Fields") || callIsPkgFunc(cc, pk, "FieldsFunc") || callIsPkgFunc(cc, pk, "FieldsSeq") {
-				fields = c.P.InstrPos(in)
-			}
-		}
-	})
+		})
+	}
 	if fields != "" {
 		c.Fail(rule, "meta-line-separator", desc, fields+": the line is split on any white space; the key of an opaque request target (`scheme://authority SP target`) contains a space, its entry has four parts, is rejected as invalid on every read and rewritten on every request")
 		return
@@ -983,4 +981,81 @@ func isCreateOrOpenForWrite(c *Ctx, cc *ssa.CallCommon) (int, bool) {
 		return 0, true
 	}
 	return 0, false
+}
+
+// isSWRValue: v derives from the stored response's stale-while-revalidate accessor (through parameters as well).
+func (c *Ctx) isSWRValue(v ssa.Value) bool {
+	return c.An.dependsOnCallFull(v, func(cc *ssa.Call) bool { return c.An.isAccessorCall(cc, "rs", "stale-while-revalidate") })
+}
+
+// windowTestOpen: the polarity of comparison t under which the stale-while-revalidate window is open (`x < swr`).
+func (c *Ctx) windowTestOpen(t *ssa.BinOp, val bool) bool {
+	open := (t.Op == token.LSS || t.Op == token.LEQ) == val
+	if c.isSWRValue(t.X) {
+		open = !open
+	}
+	return open
+}
+
+// windowOpen: the decision dc implies that the stale-while-revalidate window is open: it is the window comparison
+// itself, or the true outcome of a local boolean helper that returns true only with the window open.
+func (c *Ctx) windowOpen(dc domCond) bool {
+	fn := dc.block.Parent()
+	tests := c.swrWindowTests(fn)
+	for _, lf := range condLeaves(dc.cond, dc.onTrue) {
+		for _, t := range tests {
+			if lf.v == ssa.Value(t) && c.windowTestOpen(t, lf.val) {
+				return true
+			}
+		}
+		if call, ok := lf.v.(*ssa.Call); ok && lf.val {
+			if sc := call.Call.StaticCallee(); sc != nil && c.helperImpliesWindow(sc) {
+				return true
+			}
+		}
+	}
+	if call, ok := dc.cond.(*ssa.Call); ok && dc.onTrue {
+		if sc := call.Call.StaticCallee(); sc != nil && c.helperImpliesWindow(sc) {
+			return true
+		}
+	}
+	return false
+}
+
+// helperImpliesWindow: h is a repo function returning one bool that cannot return true with the window closed: with
+// every window comparison of h forced to "closed", all live returns are the constant false.
+func (c *Ctx) helperImpliesWindow(h *ssa.Function) bool {
+	if h == nil || !c.P.IsRepoFunc(h) || len(h.Blocks) == 0 || h.Signature.Results().Len() != 1 || !isBoolType(h.Signature.Results().At(0).Type()) {
+		return false
+	}
+	tests := c.swrWindowTests(h)
+	if len(tests) == 0 {
+		return false
+	}
+	pr := pruneBy(h, func(cond ssa.Value) (bool, bool) {
+		for _, t := range tests {
+			if cond == ssa.Value(t) {
+				// the truth value under which the window is closed
+				return !c.windowTestOpen(t, true), true
+			}
+		}
+		return false, false
+	})
+	assume := AssumeKeys(map[string]bool{})
+	n := 0
+	for _, b := range h.Blocks {
+		if !pr.LiveBlock[b.Index] {
+			continue
+		}
+		r, ok := b.Instrs[len(b.Instrs)-1].(*ssa.Return)
+		if !ok || len(r.Results) != 1 {
+			continue
+		}
+		n++
+		v, known := c.An.BoolUnder(pr, assume, c.An.RetVal(r, 0), 0)
+		if !known || v {
+			return false
+		}
+	}
+	return n > 0
 }
